@@ -27,8 +27,7 @@ Proof. exact translate_iter_no_panic. Qed.
 Print Assumptions C20_tr_iter_no_panic.
 
 Theorem C20_rtl_post_iter_refines : forall m, rtl_post_stack (2 * ms_size m) [(m, false)] = Some (rtl_post m).
-(* the lemma may or may not be generalised over the (unused) section variable `chk` *)
-Proof. intros m. apply rtl_post_iter_refines; exact (fun _ => None). Qed.
+Proof. exact rtl_post_iter_refines. Qed.
 Print Assumptions C20_rtl_post_iter_refines.
 
 (* ---- tr_id: the identity mapping yields the same object (every node of which passed from_ast before) *)
